@@ -31,6 +31,10 @@ const bytesPrelude = `(declare-sort B 0)
 (declare-fun bat (B Int) Int)
 (declare-fun bstr (Str) B)
 (declare-fun bhex (B) Str)
+(declare-fun bunhex (Str) B)
+(declare-fun hexok (Str) Bool)
+(declare-fun b58dec (Str) B)
+(declare-fun b58enc (B) Str)
 (declare-fun bsha256 (B) B)
 (declare-fun bsha256d (B) B)
 (declare-fun bsha1 (B) B)
@@ -62,6 +66,8 @@ const bytesAxioms = `(assert (= (blen beps) 0))
 (assert (forall ((a B)) (! (= (blen (bhash160 a)) 20) :pattern ((bhash160 a)))))
 (assert (forall ((a B)) (! (= (strlen (bhex a)) (* 2 (blen a))) :pattern ((bhex a)))))
 (assert (forall ((s Str)) (! (= (blen (bstr s)) (strlen s)) :pattern ((bstr s)))))
+(assert (forall ((a B)) (! (and (= (bunhex (bhex a)) a) (hexok (bhex a))) :pattern ((bhex a)))))
+(assert (forall ((a B)) (! (= (b58dec (b58enc a)) a) :pattern ((b58enc a)))))
 (assert (forall ((a B) (lo Int) (hi Int)) (! (=> (and (<= 0 lo) (<= lo hi) (<= hi (blen a))) (= (blen (bsub a lo hi)) (- hi lo))) :pattern ((bsub a lo hi)))))
 (assert (forall ((a B) (hi Int)) (! (=> (= hi (blen a)) (= (bsub a 0 hi) a)) :pattern ((bsub a 0 hi)))))
 (assert (forall ((a B) (b B) (n Int)) (! (=> (= n (blen a)) (= (bsub (bcat a b) 0 n) a)) :pattern ((bsub (bcat a b) 0 n)))))
@@ -77,6 +83,7 @@ const bytesAxioms = `(assert (= (blen beps) 0))
 (assert (forall ((x Int)) (! (=> (and (<= 0 x) (<= x 255)) (= (bat (b1 x) 0) x)) :pattern ((b1 x)))))
 (assert (forall ((a B) (b B) (i Int)) (! (= (bat (bcat a b) i) (ite (< i (blen a)) (bat a i) (bat b (- i (blen a))))) :pattern ((bat (bcat a b) i)))))
 (assert (forall ((a B)) (! (=> (= (blen a) 1) (= a (b1 (bat a 0)))) :pattern ((bat a 0)))))
+(assert (forall ((a B) (lo Int) (hi Int) (i Int)) (! (=> (and (<= 0 lo) (<= lo hi) (<= hi (blen a)) (<= 0 i) (< i (- hi lo))) (= (bat (bsub a lo hi) i) (bat a (+ lo i)))) :pattern ((bat (bsub a lo hi) i)))))
 (assert (forall ((a B)) (! (=> (= (blen a) 4) (= a (bcat (b1 (bat a 0)) (bcat (b1 (bat a 1)) (bcat (b1 (bat a 2)) (b1 (bat a 3))))))) :pattern ((bat a 3)))))
 (assert (forall ((n Int) (lo Int) (hi Int)) (! (=> (and (<= 0 lo) (<= lo hi) (<= hi n)) (= (bsub (bzeros n) lo hi) (bzeros (- hi lo)))) :pattern ((bsub (bzeros n) lo hi)))))
 (assert (= (bzeros 0) beps))
@@ -165,7 +172,7 @@ func (e *Enc) bytesExpand(h *Heap, s string, max int) string {
 var bOps = map[string]string{
 	"bcat": "B", "b1": "B", "le16": "B", "le32": "B", "le64": "B", "bzeros": "B", "brev": "B", "bsub": "B", "bstr": "B",
 	"bsha256": "B", "bsha256d": "B", "bsha1": "B", "bripemd160": "B", "bhash160": "B",
-	"blen": "Int", "ule16": "Int", "ule32": "Int", "ule64": "Int", "bat": "Int", "bhex": "Str",
+	"bunhex": "B", "b58dec": "B", "b58enc": "Str", "hexok": "Bool", "blen": "Int", "ule16": "Int", "ule32": "Int", "ule64": "Int", "bat": "Int", "bhex": "Str",
 }
 
 func isBTerm(s string) bool { return strings.HasPrefix(s, "(b") || s == "beps" }
